@@ -387,7 +387,7 @@ def run_one(name, fam, lines, transport, tcfg, with_model=True):
     fd, path = tempfile.mkstemp(suffix=".scn", dir=SCRATCH)
     with os.fdopen(fd, "w") as f:
         f.write("\n".join(inst) + "\n")
-    env = dict(os.environ, ASAN_OPTIONS="detect_leaks=0:abort_on_error=0", UBSAN_OPTIONS="print_stacktrace=0")
+    env = dict(os.environ, ASAN_OPTIONS="detect_stack_use_after_return=1:detect_leaks=0:abort_on_error=0", UBSAN_OPTIONS="print_stacktrace=0")
     try:
         a = subprocess.run([HARNESS, path], stdout=subprocess.PIPE, stderr=subprocess.PIPE, text=True, timeout=75, env=env)
         out, err, rc = a.stdout, a.stderr, a.returncode
